@@ -14,6 +14,11 @@ def address_of(row):
     return a or row.get('peer')
 
 
+def endpoint_of(row, default_port=9042):
+    """(address, port) a client connects to; the port only exists in the peers_v2 dialect"""
+    return (address_of(row), row.get('native_port') or default_port)
+
+
 def valid(row, need_tokens):
     if not address_of(row):
         return False
@@ -25,16 +30,16 @@ def valid(row, need_tokens):
 
 
 def mirror(control_address, local_row, peer_rows, need_tokens):
-    """-> {address: {'dc', 'rack', 'host_ids' (set of acceptable ids), 'tokens' (frozenset of str) or None}}
-    control node from system.local; one entry per distinct address among the valid peer rows (a
-    peer row carrying the control node's own address describes no additional node)."""
+    """-> {(address, port): {'dc', 'rack', 'host_ids' (set of acceptable ids), 'tokens' (frozenset of str) or None}}
+    control node (an (address, port) pair) from system.local; one entry per distinct endpoint among the valid
+    peer rows (a peer row carrying the control node's own endpoint describes no additional node)."""
     out = {control_address: {'dc': local_row.get('data_center'), 'rack': local_row.get('rack'),
                              'host_ids': set([local_row.get('host_id')]),
                              'tokens': frozenset(local_row.get('tokens') or ()) if need_tokens else None}}
     for row in peer_rows:
         if not valid(row, need_tokens):
             continue
-        a = address_of(row)
+        a = endpoint_of(row)
         if a == control_address:
             continue
         if a in out:
@@ -80,9 +85,11 @@ def selftest():
         {'native_address': 'b', 'peer': 'x', 'host_id': 'h8', 'data_center': 'dc1', 'rack': 'r1', 'tokens': ['10']},
         {'native_address': 'a', 'peer': 'y', 'host_id': 'h9', 'data_center': 'dc1', 'rack': 'r1', 'tokens': ['60']},
     ]
-    m = mirror('a', loc, rows, True)
-    assert sorted(m) == ['a', 'b'], m
-    assert m['b']['host_ids'] == set(['h2', 'h8'])
-    assert sorted(mirror('a', loc, rows, False)) == ['a', 'b', 'g']
-    assert primary_owner(m, 5) == 'b' and primary_owner(m, 11) == 'a' and primary_owner(m, -3) == 'a'
+    m = mirror(('a', 9042), loc, rows, True)
+    assert sorted(m) == [('a', 9042), ('b', 9042)], m
+    assert m[('b', 9042)]['host_ids'] == set(['h2', 'h8'])
+    assert sorted(mirror(('a', 9042), loc, rows, False)) == [('a', 9042), ('b', 9042), ('g', 9042)]
+    rows2 = rows[:1] + [dict(rows[0], native_port=9043, host_id='h10')]
+    assert sorted(mirror(('a', 9042), loc, rows2, True)) == [('a', 9042), ('b', 9042), ('b', 9043)]
+    assert primary_owner(m, 5) == ('b', 9042) and primary_owner(m, 11) == ('a', 9042) and primary_owner(m, -3) == ('a', 9042)
     return True
